@@ -123,13 +123,62 @@ def layout_obs(t: pydsdl.CompositeType):
     return d
 
 
+# One container that nests SEVERAL revisions of D at once (read from DSDL text): every field keeps the revision its reference names,
+# also when the version numbers read alike once their digits are run together (1.10 / 11.0, 1.11 / 11.1, 2.55 / 25.5)
+VERSION_PAIRS = [[[1, 10], [11, 0]], [[11, 0], [1, 10]], [[1, 11], [11, 1]], [[2, 55], [25, 5]], [[1, 0], [10, 0]], [[1, 0], [1, 1]], [[1, 1], [1, 0]], [[0, 1], [0, 10]], [[12, 3], [1, 23]]]
+
+
+def check_two_revisions(case, R: engine.Acc):
+    from .. import api
+
+    (a1, a2), (b1, b2) = case["versions"]
+    old_first = case["older_first"]
+    short, long_ = "uint8 a\n@extent 64\n", "uint8 a\nuint16 b\n@extent 64\n"
+    va, vb = ("D.%d.%d" % (a1, a2)), ("D.%d.%d" % (b1, b2))
+    files = {"vns/%s.dsdl" % va: short if old_first else long_, "vns/%s.dsdl" % vb: long_ if old_first else short,
+             "vns/C.1.0.dsdl": "%s first\n%s second\n%s[<=2] more\n%s[2] pair\n@sealed\n" % (va, vb, vb, va)}
+    R.case(["two-revisions", case["versions"], old_first], nontrivial=True, sample=False)
+    o = api.read_namespace_tree(files, "vns", raw=True)
+    if o.error is not None:
+        R.violation("two-revisions-rejected", "harness: the definitions are valid", case, observed=o.error)
+        return
+    c = [t for t in o.raw_types if t.short_name == "C"][0]
+    fa = ["a"] if old_first else ["a", "b"]
+    fb = ["a", "b"] if old_first else ["a"]
+    got = [[f.name for f in (fld.data_type.element_type if isinstance(fld.data_type, pydsdl.ArrayType) else fld.data_type).fields] for fld in c.fields]
+    want = [fa, fb, fb, fa]
+    vers = [(fld.data_type.element_type if isinstance(fld.data_type, pydsdl.ArrayType) else fld.data_type).version for fld in c.fields]
+    gotv = ["%d.%d" % (x.major, x.minor) for x in vers]
+    wantv = ["%d.%d" % (a1, a2), "%d.%d" % (b1, b2), "%d.%d" % (b1, b2), "%d.%d" % (a1, a2)]
+    if got != want or gotv != wantv:
+        R.violation("nested-revision-confused", "every nested object is the revision its reference names: data written with one revision is read with that revision's fields", case, observed=[got, gotv], expected=[want, wantv])
+        return
+    # the wire: a value with every field of every revision set survives the round trip through the container
+    mk = lambda names, k: {n: k + i for i, n in enumerate(names)}  # noqa: E731
+    v = {"first": mk(fa, 1), "second": mk(fb, 10), "more": [mk(fb, 20), mk(fb, 30)], "pair": [mk(fa, 40), mk(fa, 50)]}
+    try:
+        back = pydsdl.deserialize(c, pydsdl.serialize(c, v))
+    except Exception as ex:  # noqa
+        R.violation("nested-revision-codec-raised:" + type(ex).__name__, "data written with one revision is read correctly", case, observed=repr(ex)[:200], expected=repr(v))
+        return
+    if back != v:
+        R.violation("nested-revision-roundtrip", "every field after the nested object - including further array elements - is read correctly", case, observed=repr(back), expected=repr(v))
+    else:
+        R.outcome("two-revisions-ok")
+
+
 def plan(tier):
-    return [{"part": p, "parts": 48} for p in range(48)] + H.plan_shards(['delimited-revisions', 'nested-revisions'], 2)
+    return [{"part": p, "parts": 48} for p in range(48)] + [{"kind": "two-revisions"}] + H.plan_shards(['delimited-revisions', 'nested-revisions'], 2)
 
 
 def cases(shard, tier):
     if shard.get("kind") == "call-histories":
         yield from H.cases_of(shard)
+        return
+    if shard.get("kind") == "two-revisions":
+        for vp in VERSION_PAIRS:
+            for older_first in (True, False):
+                yield {"kind": "two-revisions", "versions": vp, "older_first": older_first}
         return
     for i, (D1, D2) in enumerate(pairs(tier)):
         if i % shard["parts"] == shard["part"]:
@@ -141,6 +190,8 @@ def cases(shard, tier):
 
 
 def check_case(case, R: engine.Acc):
+    if case.get("kind") == "two-revisions":
+        return check_two_revisions(case, R)
     if case.get("kind") == "call-history":
         return H.check_history_codec(case["label"], R, 'revision-codec-depends-on-earlier-calls', 'data is read with the revision of the nested type that THIS call read')
     D1, D2, kind = case["D"], case["D2"], case["container"]
